@@ -202,6 +202,26 @@ def invariants(ctx):
     return obs
 
 
+def invariants_encode(ctx):
+    """INV (encode scope): invariants the encode-scope ledger classes rely on"""
+    r = "INV"
+    f = ctx.facts()
+    obs = []
+    t = p_symbols.tables(ctx)
+    # the planner's cost counter: twelfths of a codeword; the dearest mode costs 8/3 codewords per input byte and input up to
+    # the largest capacity().max is admitted before any plan is priced, so the counter must hold 12 * 3 * max capacity
+    frac = f.adts.get("encodation::planner::frac::Frac")
+    need(frac, r, "encodation::planner::frac::Frac")
+    fty = [x["ty"] for x in frac["variants"][0].get("fieldtys", [])]
+    bits = {"u8": 8, "u16": 16, "u32": 32, "u64": 64, "usize": 64, "u128": 128, "i8": 7, "i16": 15, "i32": 31, "i64": 63, "isize": 63, "i128": 127}
+    caps = [c["max"] for c in t["capacity"].values() if isinstance(c, dict) and isinstance(c.get("max"), int)]
+    need_val = 12 * 3 * (max(caps) if caps else 0)
+    okf = len(fty) == 1 and fty[0] in bits and caps and need_val < 2 ** bits[fty[0]]
+    obs.append(Ob(r, "frac-width", bool(okf), "the planner's cost counter (%s) can hold 12 * 3 * %s = %d twelfths - the value-range argument behind the ledger's Frac entries" % (
+        fty[0] if fty else "?", max(caps) if caps else "?", need_val), detail=fty))
+    return obs
+
+
 GF_DIV = ("<errorcode::galois::GF as core::ops::Div>::div", "<errorcode::galois::GF as core::ops::DivAssign>::div_assign")
 
 # reviewed: unguarded divisions per function (divisor not syntactically compared with GF(0) on a dominating edge)
